@@ -96,6 +96,12 @@ def snap(o, depth=0):
             return types.SimpleNamespace(content=o.getvalue(), pos=o.tell(), closed=False)
         except ValueError:
             return types.SimpleNamespace(content=b"", pos=0, closed=True)
+    if hasattr(o, "seek") and hasattr(o, "tell") and hasattr(o, "read") and not isinstance(o, (buffers.FileBasedBuffer, buffers.ReadOnlyFileBasedBuffer)):
+        try:                                                    # a real file object (TemporaryFile)
+            pos = o.tell(); o.seek(0); content = o.read(); o.seek(pos)
+            return types.SimpleNamespace(content=content, pos=pos, closed=False)
+        except Exception:
+            return types.SimpleNamespace(content=b"", pos=0, closed=True)
     if isinstance(o, buffers.OverflowableBuffer):
         inner = snap(o.buf, depth + 1) if o.buf is not None else None
         view = o.strbuf if o.buf is None else inner.view
@@ -131,10 +137,21 @@ def snap(o, depth=0):
     return ns
 
 
+class NotEvaluable(Exception):
+    pass
+
+
 class Rewrite(ast.NodeTransformer):
     """implies(a, b) -> (not a) or b   ;   old(e) -> __old(<index>)  (evaluated on the before-snapshot)"""
     def __init__(self):
         self.olds = []
+
+    def visit_Compare(self, node):
+        # object identity cannot be judged on snapshots (only `is None` can)
+        for op, right in zip(node.ops, node.comparators):
+            if isinstance(op, (ast.Is, ast.IsNot)) and not (isinstance(right, ast.Constant) and right.value is None):
+                raise NotEvaluable("identity")
+        return self.generic_visit(node)
 
     def visit_Call(self, node):
         if isinstance(node.func, ast.Name) and node.func.id == "implies" and len(node.args) == 2:
